@@ -15,7 +15,8 @@ RULE = ("cases are (reached state, operation) pairs. exhaustive part: 3 (quick) 
         "over signatures (forest shape, every node's bindings, partition of nodes by nsmap object identity) from three initial "
         "forests (separate nodes, an lxml-imported document whose children share the root's map, one with a nested declaration). "
         "random part: histories of 200 operations over 14-30 nodes (two imported copies of one document plus separate nodes; children are also detached so that they get re-attached elsewhere), 4 prefixes, 3 URIs. After every step the bindings of every node "
-        "are compared with the model. distinct = distinct (state signature, operation); non-trivial = all")
+        "are compared with the model. distinct = distinct (state signature, operation); non-trivial = all"
+        ". Also: attachments made by references.expand, nodes constructed with parent=, shared id strings, prefixes that contain each other, the reserved prefixes xml/xmlns, the empty prefix")
 ASSUMPTIONS = [
     "for descendants of an attached child the statement only fixes the child itself; below it: keys_before <= keys_after <= "
     "keys_before + pushed prefixes, non-pushed bindings unchanged, a pushed prefix shows the parent's URI or the node's previous one",
